@@ -7,7 +7,7 @@ from lib.stubs import AssocDict, RecStream
 LEVEL = 'model_checking'
 MANIFEST = {'category': 'model_checking', 'engine': 'symx+z3',
  'technique': 'symbolic execution of the real ConnectionManager/ConnectionImpl/Parser: frame lemma with symbolic object ids (differential against a single-connection twin), lifecycle step from arbitrary manager states, all interleavings of two tagged log streams',
- 'text': 'Frame: with two open connections holding arbitrary tables (symbolic ids that may coincide across connections), one arbitrary message routed to X leaves every field of Y untouched and changes X exactly as it changes a twin of X that is alone - so per-connection results are independent of what other connections do and of interleaving, for histories of any length. Lifecycle: from every manager state with <= 3 connections (open/closed, ids from a pool) one open/close/message keeps names A, B, C.. in creation order, the list append-only, id -> newest open connection, re-open = close once + fresh table, double close = no-op. Log backend: for every interleaving of two tagged streams (colliding object ids) each connection\'s rendered lines equal the lines of its stream decoded alone; New before first line, one Closed after the last.',
+ 'text': 'Frame: with two open connections holding arbitrary tables (symbolic ids that may coincide across connections), one arbitrary message routed to X leaves every field of Y untouched and changes X exactly as it changes a twin of X that is alone - so per-connection results are independent of what other connections do and of interleaving, for histories of any length. Lifecycle: from every manager state with <= 3 connections (open/closed, ids from a pool) one open/close/message keeps names A, B, C.. in creation order, the list append-only, id -> newest open connection, re-open = close once + fresh table, double close = no-op. Log backend: for every interleaving of two tagged streams (colliding object ids) each connection\'s rendered lines equal the lines of its stream decoded alone; New before first line, one Closed after the last. A stream whose id 2 is freed and handed out again as a registry stays one connection.',
  'note': 'Trusted: z3, lib/symx.py, association-list table. Bounds as stated in the evidence.'}
 EXPLANATION = MANIFEST['text']
 ASSUMPTIONS = ['association-list mapping behaves like dict', 'well-formed per-connection histories']
